@@ -294,6 +294,10 @@ func Message(r *rand.Rand, counter int) (string, string) {
 	case 18:
 		return u + " subject\n\n" + strings.Repeat("y", 5000) + "\nend", "line-5000"
 	case 19:
+		if r.IntN(2) == 0 {
+			// carriage returns: at the end of the subject, as CR LF line ends, alone inside a line, at the very end
+			return pick(r, []string{u + " subject\r", u + " l1\r\nl2\r\n\r\nbody\r\nlast", u + " progress 10%\rprogress 100%", u + " a\r\rb\n\rc\r", "\r" + u + " cr first"}), "carriage-return"
+		}
 		return u + " " + strings.Repeat("z", 9000), "line-9000"
 	case 12:
 		return u + " raise coverage to 100% (was 87%)", "percent"
